@@ -68,6 +68,8 @@ structure Resp where
   hrefs : List String
   status : Option Nat         -- `*Status`: none when the element is absent
   propstats : List PropStat
+  hasError : Bool := false    -- a DAV:error child (a precondition / postcondition code)
+  hasDesc : Bool := false     -- a DAV:responsedescription child
 deriving DecidableEq, Repr
 
 /-- `Response.Err`: the code of the `HTTPError`, if any -/
@@ -75,6 +77,14 @@ def respErr (r : Resp) : Option Nat :=
   match r.status with
   | none => none
   | some c => if c / 100 = 2 then none else some c
+
+/-- what the `HTTPError` of a failed response wraps: the DAV:error element (`errors.As` finds it, also behind a
+    description), a description only, or nothing -/
+inductive RespWrapped | dav | text | nothing
+deriving DecidableEq, Repr
+
+def respWrapped (r : Resp) : RespWrapped :=
+  if r.hasError then .dav else if r.hasDesc then .text else .nothing
 
 inductive PathOut
   | ok (p : String)
